@@ -58,6 +58,7 @@ type Target struct {
 	Blocks   []Block    // abs mode: bodies of if-statements extracted by anchor
 	Prelude  string     // extra Gallina text emitted after the header (abs mode helpers)
 	Consts   []string   // package-level integer constants emitted as `Definition name : Z := value.`
+	GOARCH   string     // parse the package's files as for this GOARCH (portable variants that amd64 builds exclude)
 }
 
 type Dispatch struct {
@@ -138,19 +139,24 @@ type pkgInfo struct {
 
 var pkgCache = map[string]*pkgInfo{} // several modules may be translated from one package
 
-func loadPkg(dir string) (*pkgInfo, error) {
-	if pi, ok := pkgCache[dir]; ok {
+func loadPkg(dir string) (*pkgInfo, error) { return loadPkgArch(dir, "") }
+
+func loadPkgArch(dir, arch string) (*pkgInfo, error) {
+	if pi, ok := pkgCache[dir+"|"+arch]; ok {
 		return pi, nil
 	}
-	pi, err := loadPkgUncached(dir)
+	pi, err := loadPkgUncached(dir, arch)
 	if err == nil {
-		pkgCache[dir] = pi
+		pkgCache[dir+"|"+arch] = pi
 	}
 	return pi, err
 }
 
-func loadPkgUncached(dir string) (*pkgInfo, error) {
+func loadPkgUncached(dir, arch string) (*pkgInfo, error) {
 	ctx := build.Default
+	if arch != "" {
+		ctx.GOARCH = arch
+	}
 	bp, err := ctx.ImportDir(dir, 0)
 	if err != nil {
 		return nil, err
@@ -211,7 +217,7 @@ func srcOf(n ast.Node) string {
 }
 
 func translateTarget(t Target) (string, error) {
-	pi, err := loadPkg(t.Dir)
+	pi, err := loadPkgArch(t.Dir, t.GOARCH)
 	if err != nil {
 		return "", err
 	}
@@ -1690,6 +1696,19 @@ func (tr *translator) table(name string) (def string, err error) {
 	}
 	if idx < 0 || idx >= len(vs.Values) {
 		return "", fmt.Errorf("table %s has no initialiser", name)
+	}
+	if tv, isc := tr.pi.info.Types[vs.Values[idx]]; isc && tv.Value != nil && tv.Value.Kind() == constant.String && tr.t.Mode == "abs" {
+		// a string variable used as a lookup table (abs mode): index -> byte
+		str := constant.StringVal(tv.Value)
+		var sb strings.Builder
+		pos := fset.Position(vs.Pos())
+		sb.WriteString(fmt.Sprintf("(* %s:%d  table %s (string) *)\n", pos.Filename, pos.Line, name))
+		sb.WriteString("Definition " + name + " (i : Z) : Z :=\n")
+		for i := 0; i < len(str); i++ {
+			sb.WriteString(fmt.Sprintf("  if i =? %d then %d else\n", i, str[i]))
+		}
+		sb.WriteString("  0.\n")
+		return sb.String(), nil
 	}
 	cl, ok := vs.Values[idx].(*ast.CompositeLit)
 	if !ok {
